@@ -114,7 +114,9 @@ def gen_cases(rng, tier):
     N = 50 if tier == "quick" else 1200
     cases = []
     for cls in CLASSES:
-        for _ in range(N):
+        # classes with a global budget (edits allowed / required) get more cases: the interesting ones
+        # need part of the budget spent outside the window
+        for _ in range(N * (3 if cls in ("AvoidChanges", "EnforceChanges") else 1)):
             n = rng.choice([12, 18, 24, 30, 33, 45])
             try:
                 desc, role, seq = gen_spec(rng, cls, n)
